@@ -267,6 +267,27 @@ fn deliver_corrupted(cx: &mut Cx, s: u64, f: Presentation, l: usize, issuer: Nod
         g.didx = Some(a); g.dmsgs = Some(b);
         deliver(cx, verifier, g, "pairs_permuted".into(), ideal.clone());
     }
+    if r >= 2 {
+        // the INDEX list alone in another order, the messages as given: every pair of the two
+        // swapped positions is now a false claim (a verifier that sorts the indexes it is given
+        // without moving the messages along re-pairs them into the honest statement)
+        let (i, j) = (cx.ch.choose("idx_only_i", r as u64) as usize, cx.ch.choose("idx_only_j", r as u64) as usize);
+        let mut g = f.clone();
+        let mut a = g.didx.take().unwrap();
+        a.swap(i, j);
+        g.didx = Some(a);
+        if lnorm(&f.dmsgs)[i] != lnorm(&f.dmsgs)[j] { cx.count("probe.index_list_reordered_messages_as_given"); deliver(cx, verifier, g, "didx_reordered_messages_as_given".into(), ideal.clone()); }
+    }
+    if r >= 1 {
+        // one index listed twice, ONE message for it: R + 1 indexes for R messages (a verifier
+        // that de-duplicates the indexes before counting sees nothing wrong)
+        let i = cx.ch.choose("idx_dup_only", r as u64) as usize;
+        let mut g = f.clone();
+        let mut a = g.didx.take().unwrap();
+        a.insert(i, a[i]);
+        g.didx = Some(a);
+        deliver(cx, verifier, g, "didx_duplicated_without_its_message".into(), ideal.clone());
+    }
     if r >= 1 {
         let i = cx.ch.choose("pair_drop", r as u64) as usize;
         let mut g = f.clone();
